@@ -142,13 +142,18 @@ fn supervise(args: &[String]) -> i32 {
             for idx in candidates {
                 let key = format!("signal-{}", sig);
                 let path = driver::write_seed_replay(s.as_ref(), seed, tier, idx, "crash", &key, &what);
-                let st = std::process::Command::new(&exe)
+                let out = std::process::Command::new(&exe)
                     .arg("replay")
                     .arg(&path)
                     .env("VERIF_INNER", "1")
-                    .stdout(std::process::Stdio::null())
                     .stderr(std::process::Stdio::null())
-                    .status();
+                    .output();
+                // the schedule up to the point of death goes into the replay file
+                if let Ok(o) = &out {
+                    let lines: Vec<String> = String::from_utf8_lossy(&o.stdout).lines().filter(|l| l.starts_with("  #")).map(|l| l.trim_start().to_string()).collect();
+                    driver::attach_log(&path, &lines);
+                }
+                let st = out.map(|o| o.status);
                 match st {
                     Ok(st) if st.code().is_none() => {
                         println!("violation in run {}: crash:{} -- {}", idx, key, what);
